@@ -333,6 +333,27 @@ func init() {
 		c.smt.assume(implies(r, app(">=", app("slen", s), app("slen", p))), "HasSuffix ⇒ len(s) ≥ len(suffix)")
 		return Val{T: resT, Term: r}
 	}
+	externalModels["strings.Join"] = func(fr *Frame, callee *ssa.Function, args []Val, resT types.Type, st *State, reach string, pos token.Pos) Val {
+		c := fr.c
+		// a pure function of the joined elements (window of the backing array) and the separator
+		c.smt.declareFun("str_join", []string{"(Array Int Str)", "Int", "Int", "Str"}, "Str")
+		s := c.termOf(args[0])
+		name, sort := c.elemHeap(tStr)
+		h := c.heapGet(st, name, sort)
+		return Val{T: resT, Term: c.smt.define("join", "Str", app("str_join", sel(h, app("sl_base", s)), app("sl_off", s), app("sl_len", s), c.termOf(args[1])))}
+	}
+	// --- regexp: matching is an uninterpreted pure function of (compiled regexp, string) --------------------------
+	externalModels["regexp.MustCompile"] = func(fr *Frame, callee *ssa.Function, args []Val, resT types.Type, st *State, reach string, pos token.Pos) Val {
+		c := fr.c
+		r := c.smt.declareFresh("re", "Int")
+		c.smt.assume(app(">", r, "0"), "MustCompile returns a non-nil regexp (or panics)")
+		return Val{T: resT, Term: r}
+	}
+	externalModels["(*regexp.Regexp).MatchString"] = func(fr *Frame, callee *ssa.Function, args []Val, resT types.Type, st *State, reach string, pos token.Pos) Val {
+		c := fr.c
+		c.smt.declareFun("re_match", []string{"Int", "Str"}, "Bool")
+		return Val{T: resT, Term: c.smt.define("rematch", "Bool", app("re_match", c.termOf(args[0]), c.termOf(args[1])))}
+	}
 	idx := func(fname string) extModel {
 		return func(fr *Frame, callee *ssa.Function, args []Val, resT types.Type, st *State, reach string, pos token.Pos) Val {
 			c := fr.c
